@@ -1,8 +1,8 @@
 (* C13 — the async caches behave like their reference cache for every call history.
-   Only statements; every proof is `exact <lemma>` (lemmas in proofs/CacheProofs.v).
+   Only statements; every proof is `exact <lemma>` (lemmas in proofs/CacheProofs.v, proofs/CacheGenProofs.v).
    K, keqb range over every key type with a correct equality test: the theorems hold for the default
    key, for every key_fn, and for the reference keyed on the bound arguments alike. *)
-From Asynq Require Import Base Cache proofs.CacheProofs.
+From Asynq Require Import Base Cache proofs.CacheProofs proofs.CacheGenProofs.
 
 (* ---- keys: the (repaired) default key is the call's bound arguments, whatever the spelling *)
 Theorem C13_default_key_normalises : forall s c b,
@@ -290,3 +290,21 @@ Theorem C13_lazy_values_opaque_step : forall rho ttl st o,
   (rl_lstate rho (fst (lstep ttl st o)), rl_res rho (snd (lstep ttl st o))).
 Proof. exact lstep_relabel. Qed.
 Print Assumptions C13_lazy_values_opaque_step.
+
+(* ---- alru_cache on a method, instances with different lifetimes: an instance is a (slot, generation) pair.
+   A hit is served from an entry stored for the very instance the method is called on (same slot, same generation) ... *)
+Theorem C13_generations_hit_same_instance : forall src s cap st id i c bl b st' v,
+  gstep src s cap st (GCall id i c bl b) = (st', RHit v) ->
+  exists e, In e (store (ga st)) /\ islot (ekey ikey e) = i /\ igen (ekey ikey e) = gen_of (ggen st) i /\
+            eval ikey e = v.
+Proof. exact gen_hit_same_instance. Qed.
+Print Assumptions C13_generations_hit_same_instance.
+
+(* ... so after any history, once the instance in a slot is dropped, the first call on the fresh instance in that slot
+   is never a hit - whatever the dead generations left in the LRU, the same remaining arguments included. *)
+Theorem C13_generations_fresh_instance_not_served : forall src s cap ops st i st1 id c bl b,
+  fst (grun src s cap ginit ops) = st ->
+  gstep src s cap st (GDrop i) = (st1, RUnit) ->
+  forall v, snd (gstep src s cap st1 (GCall id i c bl b)) <> RHit v.
+Proof. exact gen_fresh_instance_not_served. Qed.
+Print Assumptions C13_generations_fresh_instance_not_served.
